@@ -57,7 +57,7 @@ std::optional<SmEnabled> SmEnabled::fromDom(const QDomElement &el)
 
 void SmEnabled::toXml(QXmlStreamWriter *w) const
 {
-    w->writeStartElement(QSL65("enable"));
+    w->writeStartElement(QSL65("enabled"));
     w->writeDefaultNamespace(toString65(ns_stream_management));
     if (resume) {
         w->writeAttribute(QSL65("resume"), u"true"_s);
